@@ -143,7 +143,7 @@ func runSystemScenario(rec *Recorder, r *rand.Rand, idx, length int) {
 		for j := 0; j < nm; j++ {
 			c.Members = append(c.Members, cs[r.Intn(len(cs))].ID)
 		}
-		cfg.Curves = append(cfg.Curves, configuration.CurveConfig{ID: c.ID, Function: &configuration.FunctionCurveConfig{Type: c.Fn, Curves: c.Members}})
+		cfg.Curves = append(cfg.Curves, configuration.CurveConfig{ID: c.ID, Function: &configuration.FunctionCurveConfig{Type: c.Fn, Curves: append([]string(nil), c.Members...)}})
 		cs = append(cs, c)
 	}
 	// fans: file fans and hwmon fans with configured limits; the second fan often shares the first one's curve
@@ -180,6 +180,8 @@ func runSystemScenario(rec *Recorder, r *rand.Rand, idx, length int) {
 		fs = append(fs, f)
 	}
 	configuration.CurrentConfig = cfg
+	// (the daemon and every command validate the configuration first and then build from the SAME object)
+	must(configuration.Validate(filepath.Join(dir, "fan2go.yaml")))
 	prometheus.DefaultRegisterer = prometheus.NewRegistry()
 	fanMap, err := internal.InitializeObjects()
 	must(err)
